@@ -5,9 +5,9 @@ from common import *
 import scen
 
 
-def apalache(root, inv, work, extra=(), timeout=900):
+def apalache(root, inv, work, extra=(), timeout=900, init="Init", nxt="Next"):
     out = work.path("apa-%d" % (int(time.time() * 1000) % 10000000))
-    cmd = ["timeout", str(timeout), "apalache-mc", "check", "--cinit=ConstInit", "--init=Init", "--next=Next", "--inv=" + inv, "--length=0", "--out-dir=" + out] + list(extra) + [root]
+    cmd = ["timeout", str(timeout), "apalache-mc", "check", "--cinit=ConstInit", "--init=" + init, "--next=" + nxt, "--inv=" + inv, "--length=0", "--out-dir=" + out] + list(extra) + [root]
     t0 = time.time()
     p = subprocess.run(cmd, cwd=work.dir, stdout=subprocess.PIPE, stderr=subprocess.STDOUT, text=True)
     shutil.rmtree(out, ignore_errors=True)
@@ -132,3 +132,15 @@ def check_c05(prop, tier):
         return res.finish()
     finally:
         work.cleanup()
+
+
+def aggregate_algebra(res, work):
+    """integer core of C01 / C12 over all 64-bit quantities (spec/ApaAgg.tla)"""
+    root = os.path.join(SPEC, "ApaAggMC.tla")
+    ok, w1, out = apalache(root, "InvAgg", work, init="InitAgg", nxt="NextAgg")
+    if not ok:
+        raise ToolError("Apalache refutes the aggregate arithmetic of the specification:\n" + out[-1500:])
+    neg, w2, _ = apalache(root, "InvAggNeg", work, init="InitAgg", nxt="NextAgg")
+    if neg:
+        raise ToolError("non-vacuity: Apalache must refute the variant that forgets the leftover hidden quantity")
+    res.add(apalache_aggregate_algebra="holds for all non-negative integers with level total <= u64::MAX", apalache_wall_s=round(w1 + w2, 1))
